@@ -40,8 +40,12 @@ pub enum OpenVariant {
     OpenClosePipelined,
     Silence,
     EofImmediately,
+    /// the peer's first frame is a close (no open); afterwards it is silent like a peer that has closed
+    CloseBeforeOpen,
+    /// an empty frame, then an open with idle-time-out 0 (= no time-out)
+    EmptyThenOpenIdleZero,
 }
-pub const OPEN_VARIANTS: [OpenVariant; 10] = [
+pub const OPEN_VARIANTS: [OpenVariant; 12] = [
     OpenVariant::Default,
     OpenVariant::Pipelined,
     OpenVariant::LateOpen,
@@ -52,6 +56,8 @@ pub const OPEN_VARIANTS: [OpenVariant; 10] = [
     OpenVariant::OpenClosePipelined,
     OpenVariant::Silence,
     OpenVariant::EofImmediately,
+    OpenVariant::CloseBeforeOpen,
+    OpenVariant::EmptyThenOpenIdleZero,
 ];
 
 #[derive(Debug, Clone, Copy, PartialEq, Eq, Hash)]
@@ -70,8 +76,12 @@ pub enum Ev {
     PWithholdClose,
     /// let one second of virtual time pass (heartbeats fire if the peer advertised an idle time-out)
     Wait,
+    /// close() crossed by frames the peer sent before it saw the close: when the library's close is on the wire the
+    /// peer (which has not answered yet) sends an empty frame and a begin for a session of its own - both legal for a
+    /// peer that has not seen the close - and only then its clean close
+    LCloseCrossed,
 }
-pub const ALPHABET: [Ev; 13] = [
+pub const ALPHABET: [Ev; 14] = [
     Ev::LBegin,
     Ev::LClose,
     Ev::PClose,
@@ -85,6 +95,7 @@ pub const ALPHABET: [Ev; 13] = [
     Ev::PEof,
     Ev::PWithholdClose,
     Ev::Wait,
+    Ev::LCloseCrossed,
 ];
 
 enum Handle {
@@ -218,7 +229,7 @@ pub async fn scenario(role: Role, ov: OpenVariant, idle: bool, events: Vec<Ev>) 
     match role {
         Role::Client => {
             match ov {
-                OpenVariant::LateOpen | OpenVariant::FrameBeforeOpen | OpenVariant::HeaderThenEof | OpenVariant::OpenClosePipelined => auto.open = false,
+                OpenVariant::LateOpen | OpenVariant::FrameBeforeOpen | OpenVariant::HeaderThenEof | OpenVariant::OpenClosePipelined | OpenVariant::CloseBeforeOpen | OpenVariant::EmptyThenOpenIdleZero => auto.open = false,
                 OpenVariant::WrongHeaderVersion | OpenVariant::SaslHeader | OpenVariant::Silence | OpenVariant::EofImmediately | OpenVariant::Pipelined => {
                     auto.header = false;
                     auto.open = false;
@@ -262,6 +273,15 @@ pub async fn scenario(role: Role, ov: OpenVariant, idle: bool, events: Vec<Ev>) 
                                     peer.send(0, Performative::Open(peer_open_idle(idle)));
                                     peer.send(0, Performative::Close(Close { error: None }));
                                 }
+                                OpenVariant::CloseBeforeOpen => {
+                                    peer.send(0, Performative::Close(Close { error: None }));
+                                }
+                                OpenVariant::EmptyThenOpenIdleZero => {
+                                    peer.send_raw(&[0, 0, 0, 8, 2, 0, 0, 0]);
+                                    let mut o = peer_open();
+                                    o.idle_time_out = Some(0);
+                                    peer.send(0, Performative::Open(o));
+                                }
                                 _ => {}
                             }
                         }
@@ -301,6 +321,9 @@ pub async fn scenario(role: Role, ov: OpenVariant, idle: bool, events: Vec<Ev>) 
                     if res == "ok" && lib_closed(&peer.trace).is_none() && !replied_begin {
                         obs.fails.push(("frame-before-open-accepted".into(), "a begin frame arriving before the peer's open was silently accepted: the connection opened and was not closed with an error".into()));
                     }
+                    if let Some(None) = lib_closed(&peer.trace) {
+                        obs.fails.push(("illegal-frame-closed-without-error begin-before-open".into(), "a begin that arrived before the peer's open closed the connection, but the close carries no error".into()));
+                    }
                 }
                 OpenVariant::OpenClosePipelined => {
                     // peer's close must be answered by a close
@@ -313,15 +336,32 @@ pub async fn scenario(role: Role, ov: OpenVariant, idle: bool, events: Vec<Ev>) 
                         obs.fails.push(("open-completed-without-peer".into(), format!("the peer sent nothing but open returned {res}")));
                     }
                 }
+                OpenVariant::CloseBeforeOpen => {
+                    // the peer has closed: whatever the library makes of a close without open, the call must
+                    // come back (the peer's close will not come a second time) and must not report success
+                    if res == "pending" {
+                        obs.fails.push(("open-hangs-after-close-without-open".into(), format!("the peer answered the header with a close; open() was still pending after {h:?} (the library waits for a close that has already come)")));
+                    } else if res == "ok" {
+                        obs.fails.push(("open-ok-after-close-without-open".into(), "the peer answered the header with a close but open() reported success".into()));
+                    }
+                }
+                OpenVariant::EmptyThenOpenIdleZero => {
+                    // an empty frame before the open may be tolerated or refused; either way the call comes back
+                    if res == "pending" {
+                        obs.fails.push(("open-hangs-after-empty-frame-before-open".into(), format!("an empty frame, then open(idle-time-out 0): open() still pending after {h:?}")));
+                    }
+                }
             }
         }
         Role::Listener => {
             // scripted client against the real acceptor
             let mut auto = Auto::none();
             auto.max_frame_size = 4096;
+            // a client that sent something odd still answers a close like a conforming peer
+            auto.close = matches!(ov, OpenVariant::EmptyThenOpenIdleZero);
             peer = Peer::new(pipe.clone(), 1, auto);
             match ov {
-                OpenVariant::Default | OpenVariant::LateOpen | OpenVariant::OpenClosePipelined | OpenVariant::FrameBeforeOpen | OpenVariant::HeaderThenEof => peer.send_proto_header(AMQP_HEADER),
+                OpenVariant::Default | OpenVariant::LateOpen | OpenVariant::OpenClosePipelined | OpenVariant::FrameBeforeOpen | OpenVariant::HeaderThenEof | OpenVariant::CloseBeforeOpen | OpenVariant::EmptyThenOpenIdleZero => peer.send_proto_header(AMQP_HEADER),
                 OpenVariant::Pipelined => {
                     peer.send_proto_header(AMQP_HEADER);
                     peer.send(0, Performative::Open(peer_open_idle(idle)));
@@ -356,6 +396,15 @@ pub async fn scenario(role: Role, ov: OpenVariant, idle: bool, events: Vec<Ev>) 
                                 OpenVariant::OpenClosePipelined => {
                                     peer.send(0, Performative::Open(peer_open_idle(idle)));
                                     peer.send(0, Performative::Close(Close { error: None }));
+                                }
+                                OpenVariant::CloseBeforeOpen => {
+                                    peer.send(0, Performative::Close(Close { error: None }));
+                                }
+                                OpenVariant::EmptyThenOpenIdleZero => {
+                                    peer.send_raw(&[0, 0, 0, 8, 2, 0, 0, 0]);
+                                    let mut o = peer_open();
+                                    o.idle_time_out = Some(0);
+                                    peer.send(0, Performative::Open(o));
                                 }
                                 _ => {}
                             }
@@ -393,6 +442,9 @@ pub async fn scenario(role: Role, ov: OpenVariant, idle: bool, events: Vec<Ev>) 
                     if replied_begin {
                         obs.fails.push(("acted-on-frame-before-open".into(), "the listener answered a begin that arrived before the client's open".into()));
                     }
+                    if let Some(None) = lib_closed(&peer.trace) {
+                        obs.fails.push(("illegal-frame-closed-without-error begin-before-open".into(), "a begin that arrived before the client's open closed the connection, but the close carries no error".into()));
+                    }
                 }
                 OpenVariant::OpenClosePipelined => {
                     if lib_opened(&peer.trace) && lib_closed(&peer.trace).is_none() {
@@ -402,6 +454,18 @@ pub async fn scenario(role: Role, ov: OpenVariant, idle: bool, events: Vec<Ev>) 
                 OpenVariant::Silence => {
                     if res != "pending" {
                         obs.fails.push(("accept-completed-without-peer".into(), format!("the client sent nothing but accept returned {res}")));
+                    }
+                }
+                OpenVariant::CloseBeforeOpen => {
+                    if res == "pending" {
+                        obs.fails.push(("open-hangs-after-close-without-open".into(), format!("the client followed its header with a close; accept() was still pending after {h:?}")));
+                    } else if res == "ok" {
+                        obs.fails.push(("open-ok-after-close-without-open".into(), "the client followed its header with a close but accept() reported success".into()));
+                    }
+                }
+                OpenVariant::EmptyThenOpenIdleZero => {
+                    if res == "pending" {
+                        obs.fails.push(("open-hangs-after-empty-frame-before-open".into(), format!("an empty frame, then open(idle-time-out 0): accept() still pending after {h:?}")));
                     }
                 }
             }
@@ -434,6 +498,7 @@ pub async fn scenario(role: Role, ov: OpenVariant, idle: bool, events: Vec<Ev>) 
         let enabled = match ev {
             Ev::LBegin => matches!(handle, Some(Handle::Client(_))) && !local_close_done,
             Ev::LClose | Ev::LCloseErr | Ev::LDrop => handle.is_some() && !local_close_done,
+            Ev::LCloseCrossed => handle.is_some() && !local_close_done && !peer_eof && peer_closed.is_none() && peer.auto.close && lib_closed(&peer.trace).is_none(),
             Ev::PClose | Ev::PCloseErr => !peer_eof && peer_closed.is_none(),
             Ev::PBeginUnknown | Ev::PEndUnmapped | Ev::PFlowUnmapped | Ev::PEmpty => !peer_eof,
             Ev::PEof => !peer_eof,
@@ -521,6 +586,61 @@ pub async fn scenario(role: Role, ov: OpenVariant, idle: bool, events: Vec<Ev>) 
                             _ => {}
                         }
                         close_results.push((format!("{:?}", ev), res.map_err(|e| e.to_string())));
+                    }
+                }
+            }
+            Ev::LCloseCrossed => {
+                peer.auto.close = false;
+                let crossed = std::cell::Cell::new(false);
+                let r = {
+                    let fut = async {
+                        match handle.as_mut().unwrap() {
+                            Handle::Client(c) => c.close().await,
+                            Handle::Listener(c) => c.close().await,
+                        }
+                    };
+                    tokio::pin!(fut);
+                    let start = tokio::time::Instant::now();
+                    loop {
+                        tokio::select! {
+                            biased;
+                            r = &mut fut => break Some(r),
+                            _ = tokio::time::sleep(Duration::from_millis(1)) => {
+                                peer.pump();
+                                if !crossed.get() && lib_closed(&peer.trace).is_some() {
+                                    crossed.set(true);
+                                    peer.send_empty();
+                                    let b = Begin { remote_channel: None, next_outgoing_id: 0, incoming_window: 10, outgoing_window: 10, handle_max: Default::default(), offered_capabilities: None, desired_capabilities: None, properties: None };
+                                    peer.send(6, Performative::Begin(b));
+                                    peer.send(0, Performative::Close(Close { error: None }));
+                                }
+                                if start.elapsed() > h { break None; }
+                            }
+                        }
+                    }
+                };
+                peer.auto.close = true;
+                if crossed.get() {
+                    peer_closed = Some(None);
+                }
+                match r {
+                    None => {
+                        if crossed.get() {
+                            obs.fails.push(("close-hangs".into(), "close() still pending after the peer sent its close (behind an empty frame and a begin that crossed the library's close)".into()));
+                        }
+                        close_results.push(("LCloseCrossed".into(), Err("pending".into())));
+                    }
+                    Some(res) => {
+                        local_close_done = true;
+                        if let (Err(e), true) = (&res, crossed.get()) {
+                            if illegal_sent.is_empty() && lib_closed(&peer.trace).flatten().is_none() {
+                                obs.fails.push((
+                                    "clean-close-reported-as-error (frames crossing the close)".into(),
+                                    format!("the library closed first, the peer's empty frame and begin (sent before it saw the close) crossed it, then the peer closed cleanly: no error on the wire, but close() returned {e}"),
+                                ));
+                            }
+                        }
+                        close_results.push(("LCloseCrossed".into(), res.map_err(|e| e.to_string())));
                     }
                 }
             }
